@@ -36,6 +36,9 @@ def rand_segments(rng):
             t = rand_text(rng)
             if rng.random() < 0.4:
                 t = t + "\n   more text\n "
+            # the TODO word may stand on a later line than the `/*`: the comment still starts where its marker is
+            if rng.random() < 0.3:
+                t = rng.choice(["\n", "\n   ", " \n\n\t", "\r\n  "]) + t.lstrip()
             t = t.replace("*/", "* /")
             segs.append(("block", t))
         elif r < 0.88:
